@@ -2,7 +2,7 @@
 """Regenerates MANIFEST.json from the table below (so it stays valid and current)."""
 import json, subprocess
 BASE = "cd /repo && (cargo nextest run --workspace --no-fail-fast --offline 2>/dev/null || cargo test --workspace --no-fail-fast --offline)"
-hook_commits = ["3d5eae8"]
+hook_commits = ["3d5eae8", "8c1d9c0"]
 CHECKS = {
  "C01": ("exploration", "E1 pipeline", "exhaustive enumeration of claim trees x strategies x selections x configurations against a reference model",
    "Every (claim tree, strategy incl. every Custom path subset, type-consistent selection, configuration) of the stated scopes is issued, presented and verified through the real API and compared with the reference view(U,H,D). Quick: S(4,3) complete in the cheapest configuration, S(3,3) with rotating 36 configurations, S(2,2) x 36, alphabet passes, depth chains <= 6. Thorough: S(5,4), S(4,3) rotating, S(3,3) x 36, chains <= 8.",
@@ -45,6 +45,9 @@ CHECKS.update({
  "C11": ("model_checking", "E4 history", "breadth-first exploration of the prefix tree of API call histories on one live instance; each history executed on the real object and its last result checked against the single-call oracles and all earlier results",
    "Issuer: every sequence of length <= 3 (quick) / 4 (thorough) over a 12-operation alphabet (two disjoint claim sets, 4 strategies, 3 holder keys, decoys, formats, 4 failing calls) and every sequence of length up to 8 over a 3/4-operation core with ES256 and EdDSA keys. Holder (compact and JSON): every sequence <= 3/4 over a 10-operation alphabet (selections x key-binding arguments, 3 failing) and up to 8 over a core. Last call must satisfy C05 (issuer) or C06+verification incl. key binding (holder); no earlier disclosure/salt/digest reappears; failing calls fail.",
    "states are histories (instances are not clonable); single-call oracles as in C05/C06/C01/C04", "4 C11"),
+ "C14": ("model_checking", "E5 scheduler over real OS threads", "stateless exhaustive exploration of all interleavings of salt draws of 2-4 real OS threads under a token-passing scheduler (hook points before/after each draw and at API boundaries), plus sequential histories and a cross-process run, all salts and decoy digests of the run in one set",
+   "Every interleaving of 6 (quick) / 10 (thorough) thread configurations is executed on the real issuer (11,400 schedules quick); per run and across the whole check every salt must be base64url of >= 16 bytes, all salts and decoy digests pairwise distinct, every embedded digest the SHA-256 of its disclosure text, no decoy the hash of a disclosure's salt. Sequential histories 1..16 instances, 16 free-running threads (auxiliary), 2 processes started together. Unpredictability itself is outside the family: an 8-sigma per-bit frequency monitor is reported as auxiliary statistics.",
+   "real threads because the generator is thread_local!; interleavings inside one RNG call are not explored; rand::ThreadRng quality is trusted", "4 C14"),
 })
 NOT_YET = {}
 def main():
